@@ -22,7 +22,7 @@ func init() {
 // C15 — zhttp picks the documented source and reports undecodable requests as one issue.
 
 func C15_Jobs() []string {
-	return []string{"dispatch", "dispatch-real/json", "dispatch-real/form", "dispatch-real/query", "bad-json", "bad-form", "empty-object", "query-values", "form-values", "ptr-dest", "content-length"}
+	return []string{"dispatch", "dispatch-real/json", "dispatch-real/form", "dispatch-real/query", "bad-json", "bad-form", "empty-object", "query-values", "form-values", "ptr-dest", "content-length", "form-merges-query", "bad-body-ptr-notnil"}
 }
 func C15_Covers() []string { return []string{"json", "form", "query", "decode-failure"} }
 
@@ -137,6 +137,38 @@ func C15_Run(job string) {
 		v.Assert(n == 1 && len(errs["$root"]) == 1 && errs["$root"][0].Code == code, "C15:decode-failure-not-exactly-one-top-level-issue")
 		v.Assert(ran == 0, "C15:schema-ran-after-decode-failure")
 		v.Assert(d.A == 42 && d.Name == "keep", "C15:destination-written-after-decode-failure")
+	case "form-merges-query":
+		// the form is the body PLUS the URL query, as net/http defines it (body values first): for
+		// every method that carries a form body
+		method := []string{"POST", "PUT", "PATCH", "DELETE"}[v.Choice("method", 4)]
+		req := c11Request(method, "application/x-www-form-urlencoded", "name=body&tags=b1", "a=7&tags=q1")
+		var d c15Dest
+		errs := z.Struct(z.Schema{"a": z.Int().Required(), "name": z.String(), "tags": z.Slice(z.String())}).Parse(zhttp.Request(req), &d)
+		v.Cover("form")
+		if method == "DELETE" { // no form body for DELETE: only the query is the form
+			v.Assert(errs == nil && d.A == 7 && d.Name == "" && len(d.Tags) == 1 && d.Tags[0] == "q1", "C15:wrong-source-read")
+		} else {
+			v.Assert(errs == nil && d.A == 7 && d.Name == "body", "C15:wrong-source-read")
+			v.Assert(len(d.Tags) == 2 && d.Tags[0] == "b1" && d.Tags[1] == "q1", "C15:wrong-source-read")
+		}
+	case "bad-body-ptr-notnil":
+		// an undecodable body is exactly one top-level issue also when the root is Ptr(Struct).NotNil()
+		bodies := []struct{ ct, body, code string }{{"application/json", `{`, "invalid_json"}, {"application/json", `[1]`, "invalid_json"}, {"application/json", `null`, "invalid_json"},
+			{"application/json", ``, "invalid_json"}, {"application/x-www-form-urlencoded", `a=%zz`, "invalid_form"}}
+		bd := bodies[v.Choice("body", len(bodies))]
+		ran := 0
+		var pd *c15Dest
+		s := z.Ptr(z.Struct(z.Schema{"a": z.Int().Required().TestFunc(func(x any, c z.Ctx) bool { ran++; return true })})).NotNil()
+		errs := s.Parse(zhttp.Request(c11Request("POST", bd.ct, bd.body, "")), &pd)
+		v.Cover("decode-failure")
+		n := 0
+		for k, l := range errs {
+			if k != "$first" {
+				n += len(l)
+			}
+		}
+		v.Assert(n == 1 && len(errs["$root"]) == 1 && errs["$root"][0].Code == bd.code, "C15:decode-failure-not-exactly-one-top-level-issue")
+		v.Assert(ran == 0 && pd == nil, "C15:schema-ran-after-decode-failure")
 	case "content-length":
 		// the body is the document, whatever length the request declares: unknown (-1, chunked
 		// transfer), exact, or left at zero by a hand-built request
@@ -279,9 +311,12 @@ var c14Records = []c14Val{
 }
 
 func C14_Jobs() []string {
-	return append([]string{"flat/json", "flat/zhttp-json", "flat/form", "flat/query", "flat/env", "nested/json", "nested/zhttp-json", "nested/form", "nested/query", "nested/env", "flat/sequence", "flat/zhttp-json-param"}, c14SymJobs()...)
+	return append([]string{"flat/json", "flat/zhttp-json", "flat/form", "flat/query", "flat/env", "nested/json", "nested/zhttp-json", "nested/form", "nested/query", "nested/env", "flat/sequence", "flat/zhttp-json-param", "flat/named-map", "nested/named-map", "flat/named-strmap", "flat/env-reused"}, c14SymJobs()...)
 }
 func C14_Covers() []string { return []string{"clean-record", "failing-record"} }
+
+type c14H map[string]any
+type c14P map[string]string
 
 // observation of one parse: every issue as key|code plus the destination
 func c14Obs(errs z.ZogIssueMap, d *c14Rec, nested bool, rename func(string) string) string {
@@ -427,6 +462,53 @@ func c14One(a, b string, rec c14Val) {
 		rename = func(k string) string {
 			k = strings.ReplaceAll(k, "full_name", "name")
 			return strings.ReplaceAll(k, "zip_code", "zip")
+		}
+	case "named-map", "named-strmap":
+		// the same record held in named map types (type H map[string]any, as gin.H or bson.M)
+		rename = ident
+		if b == "named-strmap" {
+			h := c14P{}
+			for k, e := range ref {
+				h[k] = e.(string)
+			}
+			errs = schema.Parse(h, &d)
+		} else {
+			h := c14H{}
+			for k, e := range ref {
+				if am, ok := e.(map[string]any); ok {
+					ah := c14H{}
+					for ak, ae := range am {
+						ah[ak] = ae
+					}
+					h[k] = ah
+				} else {
+					h[k] = e
+				}
+			}
+			errs = schema.Parse(h, &d)
+		}
+	case "env-reused":
+		// one long-lived environment provider: every parse sees the environment as it is then
+		keys := []string{"FULL_NAME", "AGE", "ADMIN", "SCORE"}
+		prov := zenv.NewDataProvider()
+		for _, k := range keys {
+			os.Setenv(k, "9")
+		}
+		var decoy c14Rec
+		schema.Parse(prov, &decoy)
+		for i, val := range []string{rec.name, rec.age, rec.admin, rec.score} {
+			if val != "" {
+				os.Setenv(keys[i], val)
+			} else {
+				os.Unsetenv(keys[i])
+			}
+		}
+		errs = schema.Parse(prov, &d)
+		for _, k := range keys {
+			os.Unsetenv(k)
+		}
+		rename = func(k string) string {
+			return strings.ToLower(strings.ReplaceAll(k, "FULL_NAME", "name"))
 		}
 	case "env":
 		set := func(k, val string) {
